@@ -748,6 +748,9 @@ class NestedSequenceConverter(t.Generic[T, U], Converter[T]):
         return self._into_data(val)
 
     def _into_data(self, val: t.Any) -> DataType:
+        if getattr(val, 'shape', None) == ():
+            # 0-d array: a single value, not iterable
+            val = val[()]
         if data_is_iterable(val):
             return list(map(self._into_data, val))
         if self.val_type in (t.Any, t.cast(t.Type[t.Any], type(t.Any))):
